@@ -2,6 +2,7 @@ import RV.C16.LemJson
 import RV.C16.LemXml
 import RV.C16.LemCsv
 import RV.C16.LemLazy
+import RV.C16.LemMulti
 /-
   C16 — helper lemmas, split by format:
     LemJson    binding dicts vs aligned rows, `parseJsonTerm ∘ termToJSON`
@@ -13,4 +14,5 @@ import RV.C16.LemLazy
     LemTsvDoc  header, lines, rows, document
     LemCsv     CSV fields
     LemLazy    the lazily evaluated Result: materialised ++ pending is invariant
+    LemMulti   several live iterators over one Result: the same invariant; what the generator-reading iterators hand out
 -/
